@@ -136,7 +136,8 @@ def check_binary(part, m, op, lt, va, rt, vb, mode):
             part.violation(sig + ' kind=type', '%s(%s) %s %s(%s) [%s]: %s' % (lt, va, op, rt, vb, mode, bad), wit,
                            size=abs(va) + abs(vb))
             return
-    part.ok(key, outcome=(op, got % (1 << n)) if n <= 8 else None)
+    part.ok(key, outcome=(op, got % (1 << n)) if n <= 8 else None,
+            sample={'op': op, 'left': '%s(%d)' % (lt, va), 'right': '%s(%d)' % (rt, vb), 'mode': mode, 'result': repr(r)} if len(part.samples) < 3 and va > 2 and vb > 2 else None)
 
 
 def check_unary(part, m, op, t, v):
@@ -277,8 +278,7 @@ def run(tier, seed):
     t0 = time.time()
     J = jobs(tier, seed)
     part = core.run_sharded(shard, (tier, seed), nshards=min(len(J), core.NPROC * 8))
-    part.samples = [{'op': '+', 'left': 'uint8(200)', 'right': 'int8(-100)', 'mode': 'direct'},
-                    {'work_items': [list(j) for j in J[:3]]}] + part.samples
+    part.samples = part.samples[:3] + [{'work_items': [list(j) for j in J[:3]]}]
     rule = ('case = (operator, left type, left value, right type, right value, direct|reflected); '
             'space = 16 binary operators x {all 2^16 pairs for the 4 8-bit type pairs; full product of boundary sets '
             '{0,1,2,2^(n-1)-1,2^(n-1),2^n-2,2^n-1,+2 seed constants} for all 121 ordered type pairs; each type x plain ints} '
